@@ -36,7 +36,7 @@ TsonisDef(e) == \A a \in 1..N : \A b \in 1..N : (Var(Col(e, a)) > 0 /\ Var(Col(e
 SpearmanDef(e) == \A a \in 1..N : \A b \in 1..N : (Var(Col(e, a)) > 0 /\ Var(Col(e, b)) > 0) =>
    AbsRIs(e.obs.spearman[a][b], Rank2(Col(e, a)), Rank2(Col(e, b))) /\ Close(e.obs.spearman[a][b], e.obs.spearman[b][a], 5)
 AffineInv(e) == \A a \in 1..N : \A b \in 1..N : \A L \in 0..e.taumax : Close(e.obs.all_aff[a][b][L + 1], e.obs.all[a][b][L + 1], Tol)
-\* translation by a large offset (2^20) changes nothing, in the compiled and in the pure-Python class
+\* translation by a large offset (2^27: level-to-fluctuation ratio 10^8) changes nothing, in the compiled and in the pure-Python class
 ShiftInv(e) == /\ \A a \in 1..N : \A b \in 1..N : \A L \in 0..e.taumax :
                      Close(e.obs.all_big[a][b][L + 1], e.obs.all[a][b][L + 1], Tol)
                /\ \A a \in 1..N : \A b \in 1..N : Close(e.obs.pure0_big[a][b], e.obs.pure0[a][b], Tol)
@@ -104,7 +104,7 @@ Checks(e) == <<
   <<"ImplementationsAgree|CouplingAnalysisPurePython.cross_correlation", PureAgrees(e)>>,
   <<"PearsonDef|TsonisClimateNetwork.correlation", TsonisDef(e)>>,
   <<"SpearmanDef|SpearmanClimateNetwork.similarity_measure", SpearmanDef(e)>>,
-  <<"AffineInv|cross_correlation", AffineInv(e)>>, <<"ShiftInv|cross_correlation(offset 2^20)", ShiftInv(e)>>, <<"PermConsistent|cross_correlation", PermConsistent(e)>> >>
+  <<"AffineInv|cross_correlation", AffineInv(e)>>, <<"ShiftInv|cross_correlation(offset 2^27)", ShiftInv(e)>>, <<"PermConsistent|cross_correlation", PermConsistent(e)>> >>
 Constant(e) == \E j \in 1..N : Var(Col(e, j)) = 0
 Tags(e) == "T" \o ToString(e.T) \o ",tau" \o ToString(e.taumax) \o (IF Constant(e) THEN ",constant_series" ELSE "")
            \o (IF e.taumax > 0 THEN ",lagged" ELSE "") \o (IF e.hist = 1 THEN ",history" ELSE "")
